@@ -308,6 +308,19 @@ def h_conditional_quantiles(h):
             cnt = cnt + (sym.If(c, 1, 0) if h.sym else (1 if c else 0))
         h.check(log[k]["n"] == 100_000 and log[k]["rs"] == 11, "cdf-sample-size-and-seed")
         h.close(cdf[k] * 100_000, cnt, "conditional-cdf-counts-the-sample-below-x")
+    # integer-typed evaluation points (an integer grid of x values): same fractions, not truncated to integers
+    del log[:]
+    xi = [3, 6]
+    for q in xi:
+        for v in vals:
+            h.assume(sym.Or(q - v >= 1e-3, q - v <= -1e-3) if h.sym else abs(q - v) >= 1e-4)
+    cdf = m.conditional_cdf(np.array(xi), 1, given, random_state=11)
+    for k in range(2):
+        cnt = 0
+        for v in vals:
+            c = (v <= xi[k])
+            cnt = cnt + (sym.If(c, 1, 0) if h.sym else (1 if c else 0))
+        h.close(cdf[k] * 100_000, cnt, "conditional-cdf-at-integer-typed-points")
 
 
 class _RecModel:
